@@ -609,6 +609,62 @@ def check_C07(tier, seed):
     return rep.finish()
 
 
+# =============================================================================================== C12
+def check_C12(tier, seed):
+    import renumber_check as rn
+    rep = Report("C12", tier, seed, "model_checking")
+    which = "quick" if tier == QUICK else "thorough"
+    res = tlc_mc("mc_renumber", "MC_Renumber", "MC_Renumber_%s.cfg" % which, timeout=3000)
+    mc_must_pass(rep, res, "MC_Renumber")
+    vacuity_check(res, rn.ARMS, "MC_Renumber")
+    # random graphs through the real renumber_aig: every iteration of transfer and the full result
+    for release, runs in ((False, 1500 if tier == QUICK else 30000), (True, 500 if tier == QUICK else 10000)):
+        prefix = "c12_%s" % ("rel" if release else "dbg")
+        _clean_traces(prefix)
+        paths, stats = rn.gen(prefix, runs, seed + (1 if release else 0), 12, release=release)
+        r = validate_traces(prefix, "Trace_Renumber", "Trace_Renumber.cfg", paths)
+        for rej in r["rejected"]:
+            reset = json.loads(rej["records"][0])
+            first = json.loads(rej["first_unmatched"])
+            rep.violation({"kind": "trace-rejected", "spec": "Trace_Renumber", "event": first.get("ev"), "op": first.get("st", first.get("res", "")),
+                           "object": "renumber", "parser": "", "panic": first.get("res") == "panic",
+                           "latch_collision": rn.latch_collision(reset)},
+                          {"spec": "Trace_Renumber", "how_to_replay": "vh renumber --seed %d; ./check C12 --replay <this file>" % seed,
+                           "rejected_record_index_in_run": rej["rejected_index"], "first_unmatched": first,
+                           "records": [json.loads(x) for x in rej["records"]]})
+        nruns = sum(v for k, v in stats.items() if k in ("runs",)) or runs
+        rep.cov["traces_validated_against_impl"] = rep.cov.get("traces_validated_against_impl", 0) + nruns - len(r["rejected"])
+        rep.cov["trace_records_validated"] = rep.cov.get("trace_records_validated", 0) + r["states"]
+        rep.cov["evaluations"] = rep.cov.get("evaluations", 0) + nruns
+        rep.cov.setdefault("generated", {}).update({("release_" if release else "dev_") + k: v for k, v in stats.items()})
+        if not release:
+            with open(paths[0]) as fh:
+                rep.cov["samples"].append({"renumber_run_reset": fh.readline().strip()[:600]})
+            seen = set()
+            for pth in paths:
+                with open(pth) as fh:
+                    for line in fh:
+                        if '"ev":"reset"' in line[:300]:
+                            seen.add(hash(line))
+            rep.cov["distinct_nontrivial"] = len(seen)
+        _clean_traces(prefix)
+    # arbitrarily deep graphs: no recursion, no stack overflow
+    deep = rn.deep(200000 if tier == QUICK else 1000000)
+    if deep["summary"].get("not_as_spec", 1) != 0:
+        rep.violation({"kind": "deep-graph", "object": "renumber", "parser": "", "event": "deep", "op": "", "spec": "Renumber", "panic": False},
+                      {"spec": None, "how_to_replay": "vh renumber --deep N", "runs": deep["runs"]})
+    rep.cov["deep_graphs"] = deep["summary"]
+    rep.cov["rule"] = ("model: every AIG of the families in MC_Renumber (arbitrary fan-in literals incl. constants, negations, "
+                       "self-reference, undefined and doubly defined literals incl. latch states, roots in every section) x 8 "
+                       "option combinations is run through the transcription of lit_defs / initialize / transfer; invariants: "
+                       "result kind = independent reference, consecutive numbering, ordered gates, truth-table equivalence of "
+                       "every root and every literal-map entry, stack and step bounds, no deadlock before Done; traces: random "
+                       "graphs (up to 12 gates, 6 inputs+latches) through the real renumber_aig, every transfer iteration (tr "
+                       "hook) must be the model's next step and the result must equal the model's, dev and release; chains and "
+                       "ladders of 2*10^5 / 10^6 gates must terminate with the closed-form result; distinct = distinct reset records")
+    return rep.finish()
+
+
 # =============================================================================================== C16 / C13
 def check_C16(tier, seed):
     rep = Report("C16", tier, seed, "model_checking")
